@@ -53,3 +53,18 @@ V('C18-orient-without-copy', ['C18', 'C15'], 'spatialpandas/geometry/polygon.py'
 # (removing .copy() in distances_from_coordinates only turns it into an out-parameter kernel whose single caller passes a fresh array: no C18 violation)
 V('C18-silent-prange-to-range', 'C18', IX, "    for i in prange(n):\n        start = start_offsets[i]", "    for i in range(n):\n        start = start_offsets[i]", expect='silent')
 V('C18-silent-rename-induction', 'C18', BL, "    for i in prange(n):\n        if not missing[i]:\n            result[i] = fn(values, value_offsets0[i:i + 2])", "    for row in prange(n):\n        if not missing[row]:\n            result[row] = fn(values, value_offsets0[row:row + 2])", expect='silent')
+
+# ------------------------------------------------------------------------------------------------ C19
+V('C19-swallow-rm-error', 'C19', D, "            filesystem.invalidate_cache()\n            if filesystem.exists(file_path):\n                filesystem.rm(file_path, recursive=True)\n                if filesystem.exists(file_path):",
+  "            filesystem.invalidate_cache()\n            if filesystem.exists(file_path):\n                try:\n                    filesystem.rm(file_path, recursive=True)\n                except OSError:\n                    pass\n                if filesystem.exists(file_path):", rule='C19.a')
+V('C19-swallow-in-concat', 'C19', D, "                part_df = read_parquet_retry(parts_tmp_path, subpart_paths, part_output_path)\n",
+  "                try:\n                    part_df = read_parquet_retry(parts_tmp_path, subpart_paths, part_output_path)\n                except Exception:\n                    rm_retry(parts_tmp_path)\n                    rm_retry(part_output_path)\n                    return None\n", rule='C19.a')
+V('C19-gate-dropped', 'C19', D, "            if subpart_paths_stripped != ls_res:\n", "            if len(subpart_paths_stripped) > len(ls_res) + 10**9:\n", rule='C19.b')
+V('C19-gate-after-read', 'C19', D, "            if subpart_paths_stripped != ls_res:\n                missing = set(subpart_paths) - set(ls_res)",
+  "            if not ls_res:\n                return read_parquet(\n                    parts_tmp_path,\n                    filesystem=filesystem,\n                )\n            if subpart_paths_stripped != ls_res:\n                missing = set(subpart_paths) - set(ls_res)", rule='C19.b')
+V('C19-rm-no-recheck', 'C19', D, "                if filesystem.exists(file_path):\n                    # Make sure we keep retrying until file does not exist\n                    raise ValueError(f\"Deletion of {file_path} not yet complete\")\n", "", rule='C19.c')
+V('C19-append-mode', 'C19', D, "            with filesystem.open(part_output_path, 'wb') as f:", "            with filesystem.open(part_output_path, 'ab') as f:", rule='C19.d')
+V('C19-os-remove', 'C19', D, "            filesystem.invalidate_cache()\n            if filesystem.exists(file_path):\n                filesystem.rm(file_path, recursive=True)",
+  "            filesystem.invalidate_cache()\n            if filesystem.exists(file_path):\n                import shutil\n                shutil.rmtree(file_path)", rule='C19.e')
+V('C19-read-without-fs', 'C19', D, "            return read_parquet(\n                parts_tmp_path,\n                filesystem=filesystem,", "            return read_parquet(\n                parts_tmp_path,", rule='C19.e')
+V('C19-silent-gate-eq-form', 'C19', D, "            if subpart_paths_stripped != ls_res:\n", "            if ls_res != subpart_paths_stripped:\n", expect='silent')
